@@ -465,6 +465,10 @@ func genInput(r *rng.R, i int, tier string) Input {
 	if tier == "thorough" || i%4 == 2 {
 		in.Extract = true
 	}
+	// the -o path holds something already (drawn last: the draws above are as they were)
+	if i%3 == 0 || r.Chance(1, 6) {
+		in.Pre = genPre(r)
+	}
 	return in
 }
 
